@@ -24,6 +24,9 @@ func main() {
 	case "C19":
 		vsched.TrackStates = false
 		runC19(R)
+	case "C08", "C09":
+		vsched.TrackStates = false
+		runGrid(R, prop)
 	case "C14":
 		vsched.TrackStates = false
 		runC14(R)
